@@ -1707,11 +1707,14 @@ impl Compiler {
     fn extract_member_from_parenthesized_optional_chain(
         expr: &Rc<Expression>,
     ) -> Option<(&Expression, &crate::ast::MemberExpression)> {
-        // Unwrap Parenthesized expression
-        let inner = match expr.as_ref() {
+        // Unwrap Parenthesized expression (any number of levels: `((a.b))()` keeps its receiver too)
+        let mut inner = match expr.as_ref() {
             Expression::Parenthesized(inner_expr, _) => inner_expr,
             _ => return None,
         };
+        while let Expression::Parenthesized(deeper, _) = inner.as_ref() {
+            inner = deeper;
+        }
 
         match inner.as_ref() {
             // Case 1: (a?.b) - parenthesized optional chain
@@ -1728,14 +1731,43 @@ impl Compiler {
         }
     }
 
+    /// The callee of a call without the purely static syntax wrapped around it:
+    /// `o.m!`, `(o.m as T)`, `(<T>o.m)` name the same reference as `o.m` / `(o.m)`
+    fn erase_static_callee(expr: &Rc<Expression>) -> Option<Rc<Expression>> {
+        match expr.as_ref() {
+            Expression::NonNull(nn) => Some(
+                Self::erase_static_callee(&nn.expression).unwrap_or_else(|| nn.expression.clone()),
+            ),
+            Expression::TypeAssertion(ta) => Some(
+                Self::erase_static_callee(&ta.expression).unwrap_or_else(|| ta.expression.clone()),
+            ),
+            Expression::Parenthesized(inner, span) => Self::erase_static_callee(inner)
+                .map(|e| Rc::new(Expression::Parenthesized(e, *span))),
+            _ => None,
+        }
+    }
+
     /// Compile a call expression
     fn compile_call_expression(
         &mut self,
         call: &crate::ast::CallExpression,
         dst: Register,
     ) -> Result<(), JsError> {
+        // Type assertions and `!` around the callee are erased: a method call keeps its receiver
+        match Self::erase_static_callee(&call.callee) {
+            Some(callee) => self.compile_call_with_callee(call, &callee, dst),
+            None => self.compile_call_with_callee(call, &call.callee, dst),
+        }
+    }
+
+    fn compile_call_with_callee(
+        &mut self,
+        call: &crate::ast::CallExpression,
+        callee: &Rc<Expression>,
+        dst: Register,
+    ) -> Result<(), JsError> {
         // Handle super() call
-        if matches!(call.callee.as_ref(), Expression::Super(_)) {
+        if matches!(callee.as_ref(), Expression::Super(_)) {
             // Compile arguments (spread not supported for super calls yet)
             let (args_start, argc, _has_spread) = self.compile_arguments(&call.arguments)?;
 
@@ -1751,7 +1783,7 @@ impl Compiler {
         }
 
         // Handle super.method() or super[expr]() call
-        if let Expression::Member(member) = call.callee.as_ref()
+        if let Expression::Member(member) = callee.as_ref()
             && matches!(member.object.as_ref(), Expression::Super(_))
         {
             // Super method call
@@ -1816,7 +1848,7 @@ impl Compiler {
         // Check for method call pattern: obj.method(args) or obj[expr](args)
         // IMPORTANT: Callee must be evaluated BEFORE arguments per JS spec.
         // If accessing the method throws, arguments should not be evaluated.
-        if let Expression::Member(member) = call.callee.as_ref() {
+        if let Expression::Member(member) = callee.as_ref() {
             match &member.property {
                 MemberProperty::Identifier(method_name) => {
                     // Compile object first (may throw if intermediate access is undefined)
@@ -1907,7 +1939,7 @@ impl Compiler {
 
         // Check for direct eval call: eval(...)
         // Direct eval has access to the lexical scope, unlike indirect eval.
-        if let Expression::Identifier(id) = call.callee.as_ref()
+        if let Expression::Identifier(id) = callee.as_ref()
             && id.name.as_str() == "eval"
             && call.arguments.len() <= 1
             && !self.has_spread_arguments(&call.arguments)
@@ -1928,7 +1960,7 @@ impl Compiler {
         // Handle parenthesized method call: (a?.b)() or (a.b)()
         // This preserves `this` binding for the method call
         if let Some((obj_expr, member)) =
-            Self::extract_member_from_parenthesized_optional_chain(&call.callee)
+            Self::extract_member_from_parenthesized_optional_chain(callee)
         {
             let obj_reg = self.builder.alloc_register()?;
 
@@ -2062,7 +2094,7 @@ impl Compiler {
 
         // Regular call
         let callee_reg = self.builder.alloc_register()?;
-        self.compile_expression(&call.callee, callee_reg)?;
+        self.compile_expression(callee, callee_reg)?;
 
         // `this` is undefined for regular calls
         let this_reg = self.builder.alloc_register()?;
